@@ -1,6 +1,6 @@
 """C16 -- region graphs (structural clauses)."""
 from ..core import Ctx, Ob, PropSpec
-from ..rules import extra2, r7n, r8, r9
+from ..rules import extra2, r7n, r8, r9, r14
 
 
 def run(ctx: Ctx) -> list[Ob]:
@@ -13,7 +13,7 @@ def run(ctx: Ctx) -> list[Ob]:
             "validates-on-construction",
             "every region graph handed out by the construction algorithms is validated only here",
         )
-    ] + r8.run_guards(ctx, r8.GUARDS_REGION_GRAPH) + r9.r9(ctx, ["cirkit.templates.region_graph.graph.RegionGraph.build_circuit"]) + (r9.r9_sweep(ctx) if ctx.tier == "thorough" else []) + r7n.structured(ctx) + r7n.identity(ctx) + r7n.canonical(ctx)
+    ] + r8.run_guards(ctx, r8.GUARDS_REGION_GRAPH) + r9.r9(ctx, ["cirkit.templates.region_graph.graph.RegionGraph.build_circuit"]) + (r9.r9_sweep(ctx) if ctx.tier == "thorough" else []) + r7n.structured(ctx) + r7n.identity(ctx) + r7n.canonical(ctx) + r14.groupby_sorted(ctx, ('cirkit.templates.region_graph',)) + r14.sum_width_from_input(ctx)
 
 
 SPEC = PropSpec(
@@ -28,8 +28,9 @@ SPEC = PropSpec(
         "assertion / branch that requires isinstance(node, B) for a class B disjoint from A without re-binding the loop variable or "
         "leaving the iteration -- such a path is a certain crash for every A node, i.e. build_circuit cannot succeed on any region "
         "graph for that argument combination. Thorough tier: the same rule over every isinstance-dispatched loop in cirkit/. R7n: RegionGraph.is_structured_decomposable compares decompositions per *scope* (keyed by .scope), not per region node, and no mapping of the class goes from a scope to a node or node index (several region nodes may share a scope: dump / load would re-attach partitions to another parent)."
+        " R14a: every itertools.groupby in the region-graph package runs over a sequence sorted by the same key (groupby merges adjacent elements only: partitions of one scope separated by a different order are never compared). R14d: in build_circuit the input width of every sum_factory(..) call derives from .num_output_units of the layer it is wired to (or is the unit count the input layer underneath is built with) -- 'explicit sum/product factories' includes product factories that do not preserve the width."
     ),
     not_decided="validity of the generated graphs as a function of run-time sizes / seeds; sufficiency of _check_structure; JSON round trip.",
     run=run,
-    floors={"R7n": 3, "R9": 1, "R8": 6, "R6": 1},
+    floors={"R14d": 3, "R7n": 3, "R9": 1, "R8": 6, "R6": 1},
 )
